@@ -6,17 +6,24 @@
 //!    line/col of every leaf equals the value computed from the rewritten text;
 //!  * correspondence cases for the Gallina kernels: `infer_next_position`,
 //!    `get_line_pos_of_char_pos`, `from_child_markers`, `position_segments` (recorded at its real
-//!    call sites during fixing, and called on perturbed real trees), meta positions of `apply`.
+//!    call sites during fixing, and called on perturbed real trees), meta positions of `apply`;
+//!  * the same clauses under a templater whose output differs from its input (placeholder
+//!    templater through `Linter::parse_string` / `lint_string(fix)`: corpus files with tokens
+//!    replaced by placeholders whose values are longer / shorter / multi-line), the templated
+//!    file's two newline tables (`TemplatedFile::new` + `get_line_pos_of_char_pos(p, source)`,
+//!    `PositionMarker::new`) against the Gallina `tf_new` / `tf_line_pos` / `marker_new`;
+//!  * bracket-structure inputs: well-nested / crossed / kind-swapped bracket bodies put into the
+//!    bracket pairs of corpus files and into statement skeletons (free-form bracketed regions).
 use std::cell::RefCell;
 use std::rc::Rc;
 
 use serde_json::{Value, json};
-use sqruff_lib::core::config::FluffConfig;
+use sqruff_lib::core::config::{FluffConfig, Value as CValue};
 use sqruff_lib::core::linter::core::{Linter, verif_hook as fix_hook};
 use sqruff_lib_core::dialects::syntax::SyntaxKind;
 use sqruff_lib_core::parser::markers::PositionMarker;
 use sqruff_lib_core::parser::segments::base::{ErasedSegment, SegmentBuilder, Tables, position_segments, verif_hook as pos_hook};
-use sqruff_lib_core::templaters::base::TemplatedFile;
+use sqruff_lib_core::templaters::base::{RawFileSlice, TemplatedFile, TemplatedFileSlice};
 
 use crate::c02;
 use crate::common::*;
@@ -63,18 +70,25 @@ fn tree_size(t: &ErasedSegment) -> usize {
 fn tree_bytes(t: &ErasedSegment) -> usize {
     t.raw().len()
 }
-fn short_hash(s: &str) -> String {
+fn fnv(s: &str) -> u64 {
     let mut h: u64 = 0xcbf29ce484222325;
     for b in s.as_bytes() {
         h ^= *b as u64;
         h = h.wrapping_mul(0x100000001b3);
     }
-    format!("{:012x}", h & 0xffff_ffff_ffff)
+    h
+}
+fn short_hash(s: &str) -> String {
+    format!("{:012x}", fnv(s) & 0xffff_ffff_ffff)
 }
 
 // ---------------------------------------------------------------- structural checks on a parse tree
 /// Returns (clause, message) of the first failure of each clause.
-fn check_parse_tree(tree: &ErasedSegment, text: &str) -> Vec<(&'static str, String)> {
+/// `text` is the text the tree spells (the templated text). `templ` = Some((source text, file))
+/// when the tree comes from a templated file whose source differs from `text`: then the source
+/// slices are not a tiling (every token inside a replaced region claims the whole placeholder),
+/// they are checked to be ordered, inside the source and - in literal regions - to spell the leaf.
+fn check_parse_tree(tree: &ErasedSegment, text: &str, templ: Option<(&str, &TemplatedFile)>) -> Vec<(&'static str, String)> {
     let mut fails: Vec<(&'static str, String)> = vec![];
     let fail = |fails: &mut Vec<(&'static str, String)>, clause: &'static str, msg: String| {
         if !fails.iter().any(|(c, _)| *c == clause) {
@@ -85,19 +99,39 @@ fn check_parse_tree(tree: &ErasedSegment, text: &str) -> Vec<(&'static str, Stri
     // 1. contiguity, 2. text = slice, 4. line/col of leaves
     let mut cur_t = 0usize;
     let mut cur_s = 0usize;
+    let mut prev_s_start = 0usize;
     for (i, l) in leaves.iter().enumerate() {
         let Some(m) = l.get_position_marker() else {
             fail(&mut fails, "leaf-has-position", format!("leaf {} {:?} has no position", i, l.raw()));
             continue;
         };
-        if m.templated_slice.start != cur_t || m.source_slice.start != cur_s {
-            fail(&mut fails, "leaves-contiguous", format!("leaf {} {:?} starts at templated {} / source {}, previous ended at {} / {}", i, l.raw(), m.templated_slice.start, m.source_slice.start, cur_t, cur_s));
+        let source_ok = match templ {
+            None => m.source_slice.start == cur_s,
+            Some((source, _)) => m.source_slice.start >= prev_s_start && m.source_slice.end <= source.len() && (l.raw().is_empty() || m.source_slice.end >= cur_s),
+        };
+        if m.templated_slice.start != cur_t || !source_ok {
+            fail(&mut fails, "leaves-contiguous", format!("leaf {} {:?} starts at templated {} / source {:?}, previous ended at {} / {} (previous source start {})", i, l.raw(), m.templated_slice.start, m.source_slice, cur_t, cur_s, prev_s_start));
         }
         if m.templated_slice.end < m.templated_slice.start || m.source_slice.end < m.source_slice.start {
             fail(&mut fails, "leaves-contiguous", format!("leaf {} has a reversed slice", i));
         }
         cur_t = m.templated_slice.end;
-        cur_s = m.source_slice.end;
+        if templ.is_none() {
+            cur_s = m.source_slice.end;
+        } else if !l.raw().is_empty() {
+            cur_s = cur_s.max(m.source_slice.end);
+        }
+        prev_s_start = m.source_slice.start;
+        if let Some((source, tf)) = templ {
+            // a leaf wholly inside a literal slice spells the same text in the source
+            let lit = tf.sliced_file.iter().find(|f| f.slice_type == "literal" && f.templated_slice.start <= m.templated_slice.start && m.templated_slice.end <= f.templated_slice.end && !l.raw().is_empty());
+            if let Some(f) = lit {
+                let inside = f.source_slice.start <= m.source_slice.start && m.source_slice.end <= f.source_slice.end;
+                if !inside || source.get(m.source_slice.clone()) != Some(l.raw().as_str()) {
+                    fail(&mut fails, "leaf-text-is-slice", format!("leaf {} raw {:?} lies in the literal slice {:?} but its source slice {:?} is {:?}", i, l.raw(), f, m.source_slice, source.get(m.source_slice.clone())));
+                }
+            }
+        }
         match text.get(m.templated_slice.clone()) {
             Some(s) if s == l.raw().as_str() => {}
             other => fail(&mut fails, "leaf-text-is-slice", format!("leaf {} raw {:?} but slice {:?} is {:?}", i, l.raw(), m.templated_slice, other)),
@@ -106,8 +140,12 @@ fn check_parse_tree(tree: &ErasedSegment, text: &str) -> Vec<(&'static str, Stri
         if (m.working_line_no, m.working_line_pos) != lc {
             fail(&mut fails, "leaf-linecol", format!("leaf {} {:?} working {:?} computed {:?}", i, l.raw(), (m.working_line_no, m.working_line_pos), lc));
         }
-        if m.source_position() != lc || m.templated_position() != lc {
-            fail(&mut fails, "leaf-linecol", format!("leaf {} {:?} source_position {:?} templated_position {:?} computed {:?}", i, l.raw(), m.source_position(), m.templated_position(), lc));
+        let slc = match templ {
+            None => lc,
+            Some((source, _)) => linecol(source, m.source_slice.start),
+        };
+        if m.source_position() != slc || m.templated_position() != lc {
+            fail(&mut fails, "leaf-linecol", format!("leaf {} {:?} source_position {:?} (computed {:?}) templated_position {:?} (computed {:?})", i, l.raw(), m.source_position(), slc, m.templated_position(), lc));
         }
     }
     if cur_t != text.len() {
@@ -283,16 +321,151 @@ fn ps_case(out: &mut Buf, cls: &str, segs: &[ErasedSegment], parent: &PositionMa
 }
 
 // ---------------------------------------------------------------- items
+/// configuration of the placeholder templater: parameter style (or regex) and the sample values
+#[derive(Clone)]
+struct Tpl {
+    style: String,
+    is_regex: bool,
+    values: Vec<(String, String)>,
+}
+fn tpl_json(t: &Option<Tpl>) -> Value {
+    match t {
+        None => Value::Null,
+        Some(t) => json!({"style": t.style, "is_regex": t.is_regex, "values": t.values}),
+    }
+}
+fn tpl_from_json(v: &Value) -> Option<Tpl> {
+    if v.is_null() {
+        return None;
+    }
+    Some(Tpl {
+        style: v["style"].as_str().unwrap_or("colon").to_string(),
+        is_regex: v["is_regex"].as_bool().unwrap_or(false),
+        values: v["values"].as_array().map(|a| a.iter().map(|p| (p[0].as_str().unwrap_or("").to_string(), p[1].as_str().unwrap_or("").to_string())).collect()).unwrap_or_default(),
+    })
+}
+
 enum Item {
     Parse(c02::Item),
-    Fix { cls: &'static str, dialect: String, rules: String, sql: String },
+    /// through `Linter::parse_string` (templater -> lexer -> parser); `tpl` = None: raw templater
+    TParse { cls: &'static str, dialect: String, tpl: Option<Tpl>, sql: String },
+    Fix { cls: &'static str, dialect: String, rules: String, tpl: Option<Tpl>, sql: String },
     Kernels { seed: u64 },
 }
 
 struct Cx {
     c02: c02::Ctx,
-    linters: std::collections::HashMap<(String, String), Linter>,
+    linters: std::collections::HashMap<(String, String, bool), Linter>,
 }
+
+/// the linter of (dialect, rules, templated?), with the placeholder section set to `tpl`
+/// (values are put into the config map directly: the ini reader trims values and cannot carry newlines)
+fn linter_for<'a>(cx: &'a mut Cx, dialect: &str, rules: &str, tpl: &Option<Tpl>) -> &'a Linter {
+    let l = cx.linters.entry((dialect.to_string(), rules.to_string(), tpl.is_some())).or_insert_with(|| {
+        let mut src = format!("[sqruff]\ndialect = {}\nrules = {}\n", dialect, rules);
+        if tpl.is_some() {
+            src.push_str("templater = placeholder\n\n[sqruff:templater:placeholder]\nparam_style = colon\n");
+        }
+        Linter::new(FluffConfig::from_source(&src, None), None, None, true)
+    });
+    if let Some(t) = tpl {
+        let ph = l.config_mut().raw.get_mut("templater").unwrap().as_map_mut().unwrap().get_mut("placeholder").unwrap().as_map_mut().unwrap();
+        ph.clear();
+        ph.insert(if t.is_regex { "param_regex" } else { "param_style" }.to_string(), CValue::String(t.style.as_str().into()));
+        for (k, v) in &t.values {
+            ph.insert(k.clone(), CValue::String(v.as_str().into()));
+        }
+    }
+    l
+}
+
+/// The templated file's own position kernel on a real (or synthetic) file whose two texts differ:
+/// `get_line_pos_of_char_pos(p, source)` must use the newline table of the text `source` selects,
+/// and a fresh `PositionMarker` takes its working position from the templated one.
+fn tf_cases(rng: &mut Rng, out: &mut Buf, cls: &str, tf: &TemplatedFile, n: usize, input: &Value) {
+    let source: &str = &tf.source_str;
+    let templated: &str = tf.templated();
+    let small = source.len() <= 500 && templated.len() <= 500;
+    let key = short_hash(&format!("{}\u{0}{}", source, templated));
+    for k in 0..n {
+        let flag = k % 2 == 1;
+        let text = if flag { source } else { templated };
+        let p = rng.below(text.len() + 1);
+        let Ok(r) = catch(|| tf.get_line_pos_of_char_pos(p, flag)) else {
+            out.direct(cls, false, &format!("c12-tf-linepos:{}", key), &format!("get_line_pos_of_char_pos({}, {}) panicked", p, flag), input.clone());
+            continue;
+        };
+        let want = linecol(text, p);
+        out.direct(cls, r == want, &format!("c12-tf-linepos:{}", key), &format!("get_line_pos_of_char_pos({}, source = {}) = {:?}, computed from the {} text {:?}", p, flag, r, if flag { "source" } else { "templated" }, want), input.clone());
+        out.hyp("clause_leaf-linecol", "blocking", r == want, json!({"input": input, "p": p, "source": flag}));
+        if small {
+            let nontriv = source != templated && text.as_bytes()[..p].contains(&b'\n');
+            out.case("tflinepos", cls, nontriv, g_tuple(&[g_str(source), g_str(templated), g_n(p), g_bool(flag)]), g_tuple(&[g_n(r.0), g_n(r.1)]), json!({"input": input, "p": p, "source": flag}));
+        }
+    }
+    // a fresh marker at a random templated offset / source offset
+    let ts = rng.below(templated.len() + 1);
+    let te = ts + rng.below(templated.len() + 1 - ts);
+    let ss = rng.below(source.len() + 1);
+    let se = ss + rng.below(source.len() + 1 - ss);
+    if let Ok(m) = catch(|| PositionMarker::new(ss..se, ts..te, tf.clone(), None, None)) {
+        let (wl, sp, tp) = (m.working_loc(), m.source_position(), m.templated_position());
+        let ok = wl == linecol(templated, ts) && tp == linecol(templated, ts) && sp == linecol(source, ss);
+        out.direct(cls, ok, &format!("c12-tf-marker:{}", key), &format!("PositionMarker::new({}..{}, {}..{}): working {:?} templated_position {:?} (computed {:?}), source_position {:?} (computed {:?})", ss, se, ts, te, wl, tp, linecol(templated, ts), sp, linecol(source, ss)), input.clone());
+        if small {
+            let args = g_tuple(&[g_str(source), g_str(templated), g_tuple(&[g_n(ss), g_n(se), g_n(ts), g_n(te)])]);
+            let exp = g_tuple(&[g_marker(&m), g_tuple(&[g_n(sp.0), g_n(sp.1)]), g_tuple(&[g_n(tp.0), g_n(tp.1)])]);
+            out.case("tfmarker", cls, source != templated && templated.as_bytes()[..ts].contains(&b'\n'), args, exp, json!({"input": input, "slices": [ss, se, ts, te]}));
+        }
+    }
+}
+
+fn run_tparse(cx: &mut Cx, cls: &'static str, dialect: &str, tpl: &Option<Tpl>, sql: &str, seed: u64, out: &mut Buf) {
+    let input = json!({"kind": "tparse", "dialect": dialect, "tpl": tpl_json(tpl), "sql": sql});
+    out.count("tparse_inputs", 1);
+    let linter = linter_for(cx, dialect, "LT01", tpl);
+    let tables = Tables::default();
+    let parsed = match catch(|| linter.parse_string(&tables, sql, None)) {
+        Ok(Ok(p)) => p,
+        Ok(Err(_)) => {
+            out.count("tparse_templater_refused", 1);
+            return;
+        }
+        Err(_) => {
+            out.count("tparse_panics", 1); // C03 / C15's business
+            return;
+        }
+    };
+    let tf = parsed.templated_file.clone();
+    let (source, templated): (String, String) = (tf.source_str.clone(), tf.templated().to_string());
+    let differs = source != templated;
+    if differs {
+        out.count("tparse_templated_differs_from_source", 1);
+        if nl_offsets(&source) != nl_offsets(&templated) {
+            out.count("tparse_newline_tables_differ", 1);
+        }
+    }
+    let mut rng = Rng::new(seed ^ 0x9e37_79b9);
+    tf_cases(&mut rng, out, cls, &tf, 4, &input);
+    let Some(tree) = &parsed.tree else {
+        out.count("tparse_no_tree", 1);
+        return;
+    };
+    if tree.raw().as_str() != templated {
+        // lexer losslessness on the templated text is C01 / C15
+        out.count("tparse_tree_text_differs_from_templated", 1);
+        return;
+    }
+    out.count("tparse_trees", 1);
+    let fails = check_parse_tree(tree, &templated, if differs { Some((&source, &tf)) } else { None });
+    let key = format!("{}:{}:{}", dialect, tpl.as_ref().map(|t| t.style.as_str()).unwrap_or("raw"), short_hash(&format!("{}{}", sql, tpl_json(tpl))));
+    report_tree(out, cls, &fails, tree, &key, &input);
+    let mut budget = 1usize;
+    if differs && tree_size(tree) <= 400 {
+        hull_cases(out, tree, &templated, &mut budget);
+    }
+}
+
 
 fn meta_case(out: &mut Buf, cls: &str, p: &c02::Parsed, tree: &ErasedSegment, text: &str, input: &Value) {
     let Some(root) = &p.root else { return };
@@ -315,6 +488,64 @@ fn meta_case(out: &mut Buf, cls: &str, p: &c02::Parsed, tree: &ErasedSegment, te
     out.case("metapos", cls, metas.len() >= 2, args, exp, json!({"input": input, "metas": metas.len()}));
 }
 
+const CLAUSES: &[&str] = &["leaves-contiguous", "leaf-text-is-slice", "leaf-linecol", "node-span-is-hull", "node-linecol", "brackets-match", "nodes-start-end-with-code", "indent-balance"];
+
+/// direct observation + one monitor evaluation per clause for one checked tree
+fn report_tree(out: &mut Buf, cls: &str, fails: &[(&'static str, String)], tree: &ErasedSegment, key_base: &str, input: &Value) {
+    if fails.is_empty() {
+        out.direct(cls, true, "", "", Value::Null);
+    }
+    for (clause, msg) in fails {
+        out.direct(cls, false, &format!("c12-{}:{}", clause, key_base), &format!("{}: {}", clause, msg), input.clone());
+    }
+    for clause in CLAUSES {
+        out.hyp(&format!("clause_{}", clause), "blocking", !fails.iter().any(|(c, _)| c == clause), json!({"input": input}));
+    }
+    // diagnostic (stronger than the property's wording): over a fully parsed tree the bracket
+    // tokens themselves nest by kind, whether or not the grammar wrapped them in a `bracketed` node
+    if std::env::var("SQV_LOUD").is_ok() {
+        fn dump(t: &ErasedSegment, d: usize) {
+            eprintln!("{}{:?} {:?} {:?}", "  ".repeat(d), t.get_type(), if t.segments().is_empty() { t.raw().to_string() } else { String::new() }, t.get_position_marker().map(|m| (m.source_slice.clone(), m.templated_slice.clone(), m.working_loc())));
+            for c in t.segments() {
+                dump(c, d + 1);
+            }
+        }
+        dump(tree, 0);
+    }
+    if let Some(ok) = bracket_tokens_nest(tree) {
+        out.hyp("diag_bracket_tokens_nest_by_kind_when_fully_parsed", "diagnostic", ok, json!({"input": input}));
+    }
+}
+
+/// None when the tree has an unparsable section (an `unparsable` node, or the nested `file` node
+/// that holds an unmatched remainder); else whether the start/end bracket leaves nest by kind.
+fn bracket_tokens_nest(tree: &ErasedSegment) -> Option<bool> {
+    if tree.recursive_crawl_all(false).iter().any(|n| n.get_type() == SyntaxKind::Unparsable || (n.get_type() == SyntaxKind::File && n.id() != tree.id())) {
+        return None;
+    }
+    let mut stack: Vec<SyntaxKind> = vec![];
+    for l in tree.get_raw_segments() {
+        let k = l.get_type();
+        match k {
+            SyntaxKind::StartBracket | SyntaxKind::StartSquareBracket | SyntaxKind::StartCurlyBracket | SyntaxKind::StartAngleBracket | SyntaxKind::StartExcludeBracket => stack.push(k),
+            SyntaxKind::EndBracket | SyntaxKind::EndSquareBracket | SyntaxKind::EndCurlyBracket | SyntaxKind::EndAngleBracket | SyntaxKind::EndExcludeBracket => {
+                let want = match k {
+                    SyntaxKind::EndBracket => SyntaxKind::StartBracket,
+                    SyntaxKind::EndSquareBracket => SyntaxKind::StartSquareBracket,
+                    SyntaxKind::EndCurlyBracket => SyntaxKind::StartCurlyBracket,
+                    SyntaxKind::EndAngleBracket => SyntaxKind::StartAngleBracket,
+                    _ => SyntaxKind::StartExcludeBracket,
+                };
+                if stack.pop() != Some(want) {
+                    return Some(false);
+                }
+            }
+            _ => {}
+        }
+    }
+    Some(stack.is_empty())
+}
+
 fn run_parse(cx: &mut Cx, it: &c02::Item, out: &mut Buf) {
     let input = json!({"kind": "parse", "dialect": it.dialect, "sql": it.sql});
     let cfg = cx.c02.cfg(&it.dialect);
@@ -335,23 +566,20 @@ fn run_parse(cx: &mut Cx, it: &c02::Item, out: &mut Buf) {
         // token slices then refer to the input, not to the token text: outside C12's premise
         return;
     }
-    let fails = check_parse_tree(tree, &text);
-    let key_base = format!("{}:{}", it.dialect, short_hash(&it.sql));
-    if fails.is_empty() {
-        out.direct(it.cls, true, "", "", Value::Null);
-    }
-    for (clause, msg) in &fails {
-        out.direct(it.cls, false, &format!("c12-{}:{}", clause, key_base), &format!("{}: {}", clause, msg), input.clone());
-    }
-    for clause in ["leaves-contiguous", "leaf-text-is-slice", "leaf-linecol", "node-span-is-hull", "node-linecol", "brackets-match", "nodes-start-end-with-code", "indent-balance"] {
-        let class = if matches!(clause, "brackets-match" | "nodes-start-end-with-code" | "indent-balance") { "blocking" } else { "blocking" };
-        out.hyp(&format!("clause_{}", clause), class, !fails.iter().any(|(c, _)| *c == clause), json!({"input": input}));
+    let fails = check_parse_tree(tree, &text, None);
+    report_tree(out, it.cls, &fails, tree, &format!("{}:{}", it.dialect, short_hash(&it.sql)), &input);
+    if it.cls.starts_with("bracket-") {
+        out.count(&format!("{}_trees_checked", it.cls), 1);
+        if tree.recursive_crawl_all(false).iter().any(|n| n.get_type() == SyntaxKind::Bracketed) {
+            out.count(&format!("{}_trees_with_bracketed_nodes", it.cls), 1);
+        }
     }
     if it.sql.contains('\n') && !it.sql.is_ascii() {
         out.count("parse_inputs_multiline_non_ascii", 1);
     }
     let mut budget = 1usize;
-    if tree_size(tree) <= 400 {
+    // (the bracket-structure stream is there for the direct clauses; its trees add nothing to the kernel ties)
+    if tree_size(tree) <= 400 && !it.cls.starts_with("bracket-") {
         hull_cases(out, tree, &text, &mut budget);
         if short_hash(&it.sql).as_bytes()[11] % 2 == 0 {
             meta_case(out, it.cls, &p, tree, &text, &input);
@@ -359,13 +587,13 @@ fn run_parse(cx: &mut Cx, it: &c02::Item, out: &mut Buf) {
     }
 }
 
-fn run_fix(cx: &mut Cx, cls: &'static str, dialect: &str, rules: &str, sql: &str, out: &mut Buf) {
-    let input = json!({"kind": "fix", "dialect": dialect, "rules": rules, "sql": sql});
+fn run_fix(cx: &mut Cx, cls: &'static str, dialect: &str, rules: &str, tpl: &Option<Tpl>, sql: &str, out: &mut Buf) {
+    let input = json!({"kind": "fix", "dialect": dialect, "rules": rules, "tpl": tpl_json(tpl), "sql": sql});
     out.count("fix_inputs", 1);
-    let linter = cx.linters.entry((dialect.to_string(), rules.to_string())).or_insert_with(|| {
-        let src = format!("[sqruff]\ndialect = {}\nrules = {}\n", dialect, rules);
-        Linter::new(FluffConfig::from_source(&src, None), None, None, true)
-    });
+    if tpl.is_some() {
+        out.count("fix_inputs_templated", 1);
+    }
+    let linter = linter_for(cx, dialect, rules, tpl);
     // every tree the fix loop rebuilds
     let trees: Rc<RefCell<Vec<(String, bool, ErasedSegment)>>> = Rc::new(RefCell::new(vec![]));
     let calls: Rc<RefCell<Vec<(Vec<ErasedSegment>, PositionMarker, Vec<ErasedSegment>)>>> = Rc::new(RefCell::new(vec![]));
@@ -396,7 +624,10 @@ fn run_fix(cx: &mut Cx, cls: &'static str, dialect: &str, rules: &str, sql: &str
         return;
     }
     let trees = trees.borrow();
-    let key_base = format!("{}:{}:{}", dialect, rules, short_hash(sql));
+    let key_base = match tpl {
+        None => format!("{}:{}:{}", dialect, rules, short_hash(sql)),
+        Some(t) => format!("{}:{}:{}:{}", dialect, rules, t.style, short_hash(&format!("{}{}", sql, tpl_json(tpl)))),
+    };
     let mut n_batches = 0;
     for (rule, accepted, tree) in trees.iter() {
         if rule != "<end>" {
@@ -478,6 +709,12 @@ fn run_kernels(cx: &mut Cx, seed: u64, out: &mut Buf) {
     raws.truncate(10);
     infer_cases(&mut rng, out, &raws);
     linepos_cases(&mut rng, out, sql);
+    // the same kernel on a file whose templated text differs from its source
+    for _ in 0..2 {
+        if let Some(tf) = synth_tf(&mut rng) {
+            tf_cases(&mut rng, out, "synthetic-templated-file", &tf, 4, &json!({"kind": "kernels", "seed": seed}));
+        }
+    }
     // perturb the children of a random node: replace / insert / delete leaves, drop positions
     let nodes: Vec<ErasedSegment> = tree.recursive_crawl_all(false).into_iter().filter(|n| n.segments().len() >= 2 && tree_size(n) <= 40).collect();
     if nodes.is_empty() {
@@ -551,10 +788,330 @@ fn run_kernels(cx: &mut Cx, seed: u64, out: &mut Buf) {
     }
 }
 
+
+// ---------------------------------------------------------------- generators: templated inputs
+/// (param_style or regex, is a regex, text whose presence in the file would create further matches, numeric names)
+const TSTYLES: &[(&str, bool, &str, bool)] = &[
+    ("colon", false, ":", false),
+    ("numeric_colon", false, ":", true),
+    ("dollar", false, "$", false),
+    ("numeric_dollar", false, "$", true),
+    ("pyformat", false, "%", false),
+    ("question_mark", false, "?", true),
+    ("percent", false, "%", true),
+    ("ampersand", false, "&", false),
+    (r"__(?P<param_name>[\w_]+)__", true, "__", false),
+];
+/// text of the `k`-th placeholder (0-based, in order of appearance) and the name it is looked up by
+fn ph_text(style: usize, k: usize, rng: &mut Rng) -> (String, String) {
+    const NAMES: [&str; 6] = ["x", "my_param", "p", "some_longer_name", "v2", "q"];
+    let nm = NAMES[k % NAMES.len()].to_string();
+    let num = (k + 1).to_string();
+    match TSTYLES[style].0 {
+        "colon" => (format!(":{}", nm), nm),
+        "numeric_colon" => (format!(":{}", num), num),
+        "dollar" => (if rng.chance(1, 2) { format!("${}", nm) } else { format!("${{{}}}", nm) }, nm),
+        "numeric_dollar" => (if rng.chance(1, 2) { format!("${}", num) } else { format!("${{{}}}", num) }, num),
+        "pyformat" => (format!("%({})s", nm), nm),
+        "question_mark" => ("?".to_string(), num),
+        "percent" => ("%s".to_string(), num),
+        "ampersand" => (if rng.chance(1, 2) { format!("&{}", nm) } else { format!("&{{{}}}", nm) }, nm),
+        _ => (format!("__{}__", nm), nm),
+    }
+}
+/// sample value for a placeholder standing where `raw` stood: the same text (templated text = the
+/// original file, only the source differs), or a text of another length / with other line breaks
+fn ph_value(raw: &str, rng: &mut Rng) -> String {
+    match rng.below(13) {
+        0..=3 => raw.to_string(),
+        4 => format!("{}\n", raw),
+        5 => format!("\n    {}", raw),
+        6 => format!("{},\n    {}", raw, raw),
+        7 => "x".to_string(),
+        8 => "some_very_long_identifier_name_here".to_string(),
+        9 => "'é\nü'".to_string(),
+        10 => String::new(),
+        11 => format!("/* c\nc */ {}", raw),
+        _ => "1".to_string(),
+    }
+}
+fn is_word_byte(b: u8) -> bool {
+    b.is_ascii_alphanumeric() || b == b'_' || b >= 0x80
+}
+/// Replace 1..=4 tokens of a lexed file by placeholders of one style.
+fn templatize(rng: &mut Rng, raws: &[String]) -> Option<(Tpl, String)> {
+    let text: String = raws.concat();
+    let styles: Vec<usize> = (0..TSTYLES.len()).filter(|&i| !text.contains(TSTYLES[i].2)).collect();
+    if styles.is_empty() {
+        return None;
+    }
+    let style = styles[rng.below(styles.len())];
+    // tokens a placeholder can stand for: not blank, not glued to a word character / ':' / '\' on
+    // the left (the styles' look-behind) nor to a word character on the right (it would join the name)
+    let mut off = 0usize;
+    let mut cand: Vec<usize> = vec![];
+    for (i, r) in raws.iter().enumerate() {
+        let before = text.as_bytes()[..off].last().copied();
+        let after = text.as_bytes().get(off + r.len()).copied();
+        off += r.len();
+        if r.trim().is_empty() {
+            continue;
+        }
+        if before.is_some_and(|b| is_word_byte(b) || b == b':' || b == b'\\' || b == b'&' || b == b'$' || b == b'%') {
+            continue;
+        }
+        if after.is_some_and(|b| is_word_byte(b) || b == b':' || b == b'{' || b == b'}') {
+            continue;
+        }
+        cand.push(i);
+    }
+    if cand.is_empty() {
+        return None;
+    }
+    rng.shuffle(&mut cand);
+    cand.truncate(rng.range(1, 4));
+    cand.sort();
+    let mut v: Vec<String> = raws.to_vec();
+    let mut values = vec![];
+    for (k, &i) in cand.iter().enumerate() {
+        let (ph, name) = ph_text(style, k, rng);
+        values.push((name, ph_value(&raws[i], rng)));
+        v[i] = ph;
+    }
+    Some((Tpl { style: TSTYLES[style].0.to_string(), is_regex: TSTYLES[style].1, values }, v.concat()))
+}
+
+/// multi-line / non-ASCII statements with `@` slots for placeholders
+const TSKELETONS: &[&str] = &[
+    "select @ as x,\n    'é' as y -- ü\nfrom t\nwhere a in (@, 2)\n  and b = @\n",
+    "/* é\n */ SELECT @,\n  b\nFROM t;\n\nSELECT 'multi\nline', @\nFROM u\n",
+    "INSERT INTO t (a, b)\nVALUES (@, 'x'),\n  (@, 'y');\n",
+    "SELECT a FROM t\nWHERE a = @\n\n\nORDER BY 1\n",
+    "SELECT @\n",
+    "SELECT a, @ ,c\nFROM  t -- @ in a comment\nwhere  a =  1\n",
+    "WITH c AS (\n    SELECT @ FROM t\n)\nselect * from c\njoin d on c.a = d.a\n",
+    "UPDATE t SET a = @,\n  b = 2\nWHERE c = @;\n",
+];
+const TVALUES: &[&str] = &["1", "a", "some_very_long_identifier_name_here", "1,\n    2", "col_a,\n  col_b,\n      col_c", "x\n", "\n1", "'s'", "'é\nü'", "", "1\n\n\n", "a  ,b"];
+
+fn skeleton_tpl(rng: &mut Rng, skel: &str) -> (Tpl, String) {
+    let style = rng.below(TSTYLES.len());
+    let mut sql = String::new();
+    let mut values = vec![];
+    for (k, part) in skel.split('@').enumerate() {
+        if k > 0 {
+            let (ph, name) = ph_text(style, k - 1, rng);
+            sql.push_str(&ph);
+            if rng.chance(5, 6) {
+                values.push((name, rng.pick(TVALUES).to_string()));
+            }
+        }
+        sql.push_str(part);
+    }
+    (Tpl { style: TSTYLES[style].0.to_string(), is_regex: TSTYLES[style].1, values }, sql)
+}
+
+// ---------------------------------------------------------------- generators: bracket structure
+const BRACKETS: [(&str, &str); 3] = [("(", ")"), ("[", "]"), ("{", "}")];
+fn open_kind(t: &str) -> Option<usize> {
+    BRACKETS.iter().position(|b| b.0 == t)
+}
+fn close_kind(t: &str) -> Option<usize> {
+    BRACKETS.iter().position(|b| b.1 == t)
+}
+/// tokens of a well-nested body: elements separated by commas, an element is an atom or a group
+fn bracket_body(rng: &mut Rng, depth: usize, out: &mut Vec<String>) {
+    let n = rng.range(1, 3);
+    for i in 0..n {
+        if i > 0 {
+            out.push(if rng.chance(1, 4) { ",\n    ".into() } else if rng.chance(1, 2) { ", ".into() } else { " ".into() });
+        }
+        if depth > 0 && rng.chance(3, 5) {
+            // round brackets most often, the other kinds often enough to meet each other
+            let k = match rng.below(5) {
+                0 | 1 => 0,
+                2 | 3 => 1,
+                _ => 2,
+            };
+            out.push(BRACKETS[k].0.into());
+            bracket_body(rng, depth - 1, out);
+            out.push(BRACKETS[k].1.into());
+        } else {
+            out.push(rng.pick(&["1", "a", "'s'", "b.c", "2 + 3", "x y"]).to_string());
+        }
+    }
+}
+/// Damage the bracket structure of a token list: exchange two closing (or opening) brackets of
+/// different kinds (every kind stays balanced by count, the groups cross), change the kind of one
+/// bracket, or drop one. Returns the name of what was done.
+fn damage_brackets(rng: &mut Rng, v: &mut Vec<String>) -> &'static str {
+    let closers: Vec<usize> = (0..v.len()).filter(|&i| close_kind(&v[i]).is_some()).collect();
+    let openers: Vec<usize> = (0..v.len()).filter(|&i| open_kind(&v[i]).is_some()).collect();
+    let pair_of_kinds = |rng: &mut Rng, xs: &[usize], v: &[String]| -> Option<(usize, usize)> {
+        let mut pairs = vec![];
+        for (a, &i) in xs.iter().enumerate() {
+            for &j in &xs[a + 1..] {
+                if v[i] != v[j] {
+                    pairs.push((i, j));
+                }
+            }
+        }
+        if pairs.is_empty() { None } else { Some(pairs[rng.below(pairs.len())]) }
+    };
+    match rng.below(10) {
+        0..=2 => "well-nested",
+        3..=5 => match pair_of_kinds(rng, &closers, v) {
+            Some((i, j)) => {
+                v.swap(i, j);
+                "closers-exchanged"
+            }
+            None => "well-nested",
+        },
+        6 => match pair_of_kinds(rng, &openers, v) {
+            Some((i, j)) => {
+                v.swap(i, j);
+                "openers-exchanged"
+            }
+            None => "well-nested",
+        },
+        7 | 8 => {
+            let all: Vec<usize> = closers.iter().chain(openers.iter()).copied().collect();
+            if all.is_empty() {
+                return "well-nested";
+            }
+            let i = all[rng.below(all.len())];
+            let (k, closing) = match close_kind(&v[i]) {
+                Some(k) => (k, true),
+                None => (open_kind(&v[i]).unwrap(), false),
+            };
+            let k2 = (k + 1 + rng.below(2)) % 3;
+            v[i] = if closing { BRACKETS[k2].1.into() } else { BRACKETS[k2].0.into() };
+            "kind-changed"
+        }
+        _ => {
+            let all: Vec<usize> = closers.iter().chain(openers.iter()).copied().collect();
+            if all.is_empty() {
+                return "well-nested";
+            }
+            v.remove(all[rng.below(all.len())]);
+            "bracket-dropped"
+        }
+    }
+}
+fn gen_body(rng: &mut Rng) -> String {
+    let mut v = vec![];
+    let depth = rng.range(1, 3);
+    bracket_body(rng, depth, &mut v);
+    damage_brackets(rng, &mut v);
+    v.concat()
+}
+
+/// statements with a bracketed region at `@`: expression / list / subquery positions, and the
+/// places where the grammars accept free-form bracketed content (column definition options,
+/// EXCEPT lists, function OPTIONS, aggregate signatures, composite types)
+const BSKELETONS: &[&str] = &[
+    "SELECT (@) FROM t\n",
+    "SELECT f(@) FROM t\n",
+    "SELECT a FROM t WHERE b IN (@)\n",
+    "SELECT [@] FROM t\n",
+    "SELECT a[@] FROM t\n",
+    "INSERT INTO t (a) VALUES (@)\n",
+    "SELECT a FROM (@) AS s\n",
+    "SELECT CAST(a AS DECIMAL(@)) FROM t\n",
+    "SELECT a FROM t GROUP BY ROLLUP (@)\n",
+    "CREATE TABLE t (a INT (@))\n",
+    "CREATE TABLE t (\n    a INT (@),\n    b VARCHAR(10) (@)\n)\n",
+    "CREATE TABLE t (a INT DEFAULT (@), b STRUCT<c INT> (@))\n",
+    "ALTER TABLE t ADD COLUMN a INT (@)\n",
+    "SELECT * EXCEPT (@) FROM t\n",
+    "SELECT a FROM t EXCEPT (@)\n",
+    "CREATE FUNCTION f(x INT64) RETURNS INT64 LANGUAGE js OPTIONS (library = @) AS 'return x;'\n",
+    "ALTER AGGREGATE f (@) RENAME TO g\n",
+    "COMMENT ON AGGREGATE f (@) IS 'x'\n",
+    "CREATE TYPE ty AS (@)\n",
+    "CREATE INDEX i ON t (@)\n",
+    "SELECT a FROM t WHERE (@)\n;\nSELECT (@)\n",
+];
+
+fn bracket_skeleton_item(rng: &mut Rng) -> c02::Item {
+    let skel = *rng.pick(BSKELETONS);
+    let mut sql = String::new();
+    for (k, part) in skel.split('@').enumerate() {
+        if k > 0 {
+            sql.push_str(&gen_body(rng));
+        }
+        sql.push_str(part);
+    }
+    c02::Item { cls: "bracket-skeleton", dialect: DIALECTS[rng.below(DIALECTS.len())].to_string(), sql }
+}
+
+/// A lexed corpus file with the content of one of its bracket pairs replaced by (or preceded by)
+/// a generated body, or with its own brackets damaged.
+fn bracket_corpus_item(rng: &mut Rng, dialect: &str, raws: &[String]) -> Option<c02::Item> {
+    let mut v: Vec<String> = raws.to_vec();
+    // matching pairs by a kind-blind stack (the file is well bracketed)
+    let mut stack = vec![];
+    let mut pairs = vec![];
+    for (i, r) in v.iter().enumerate() {
+        if open_kind(r).is_some() {
+            stack.push(i);
+        } else if close_kind(r).is_some() {
+            if let Some(o) = stack.pop() {
+                pairs.push((o, i));
+            }
+        }
+    }
+    if pairs.is_empty() {
+        return None;
+    }
+    match rng.below(4) {
+        0 => {
+            damage_brackets(rng, &mut v);
+        }
+        1 => {
+            let (o, c) = pairs[rng.below(pairs.len())];
+            v.splice(o + 1..c, [gen_body(rng)]);
+        }
+        2 => {
+            let (o, c) = pairs[rng.below(pairs.len())];
+            let body = if c > o + 1 { format!("{}, ", gen_body(rng)) } else { gen_body(rng) };
+            v.insert(o + 1, body);
+        }
+        _ => {
+            let (_, c) = pairs[rng.below(pairs.len())];
+            v.insert(c, format!(" ({})", gen_body(rng)));
+        }
+    }
+    Some(c02::Item { cls: "bracket-corpus", dialect: dialect.to_string(), sql: v.concat() })
+}
+
+/// A templated file put together from literal pieces and replaced pieces (no SQL needed).
+fn synth_tf(rng: &mut Rng) -> Option<TemplatedFile> {
+    const LITS: &[&str] = &["SELECT ", "a,\n  ", "\n", "b\nFROM t\n", " ", "-- é\n", "WHERE x = ", "\n\n", "'multi\nline'"];
+    const PHS: &[&str] = &[":x", ":name", "?", "${v}", "%(p)s", "__long_placeholder_name__"];
+    const VALS: &[&str] = &["1", "", "a,\nb", "\n", "'long string value'", "é\nü\n", "x", "\n\n\n"];
+    let (mut source, mut templated) = (String::new(), String::new());
+    let (mut sliced, mut raw_sliced) = (vec![], vec![]);
+    let n = rng.range(2, 7);
+    for k in 0..n {
+        let (kind, s, t) = if k % 2 == 0 { let l = *rng.pick(LITS); ("literal", l, l) } else { ("templated", *rng.pick(PHS), *rng.pick(VALS)) };
+        sliced.push(TemplatedFileSlice::new(kind, source.len()..source.len() + s.len(), templated.len()..templated.len() + t.len()));
+        raw_sliced.push(RawFileSlice::new(s.to_string(), kind.to_string(), source.len(), None, None));
+        source.push_str(s);
+        templated.push_str(t);
+    }
+    catch(|| TemplatedFile::new(source, "<synthetic>".to_string(), Some(templated), Some(sliced), Some(raw_sliced))).ok().and_then(|r| r.ok())
+}
+
+fn rng_pick_skel(rng: &mut Rng) -> &'static str {
+    TSKELETONS[rng.below(TSKELETONS.len())]
+}
+
 fn run_one(cx: &mut Cx, it: &Item, out: &mut Buf) {
     match it {
         Item::Parse(p) => run_parse(cx, p, out),
-        Item::Fix { cls, dialect, rules, sql } => run_fix(cx, cls, dialect, rules, sql, out),
+        Item::TParse { cls, dialect, tpl, sql } => run_tparse(cx, cls, dialect, tpl, sql, fnv(sql), out),
+        Item::Fix { cls, dialect, rules, tpl, sql } => run_fix(cx, cls, dialect, rules, tpl, sql, out),
         Item::Kernels { seed } => run_kernels(cx, *seed, out),
     }
 }
@@ -584,7 +1141,8 @@ pub fn main(args: &Args) {
         let v = if v.get("input").is_some() { v["input"].clone() } else { v };
         let v = if v.get("input").is_some() { v["input"].clone() } else { v };
         match v["kind"].as_str().unwrap_or("parse") {
-            "fix" => items.push(Item::Fix { cls: "replay", dialect: v["dialect"].as_str().unwrap_or("ansi").into(), rules: v["rules"].as_str().unwrap_or("all").into(), sql: v["sql"].as_str().unwrap_or("").into() }),
+            "fix" => items.push(Item::Fix { cls: "replay", dialect: v["dialect"].as_str().unwrap_or("ansi").into(), rules: v["rules"].as_str().unwrap_or("all").into(), tpl: tpl_from_json(&v["tpl"]), sql: v["sql"].as_str().unwrap_or("").into() }),
+            "tparse" => items.push(Item::TParse { cls: "replay", dialect: v["dialect"].as_str().unwrap_or("ansi").into(), tpl: tpl_from_json(&v["tpl"]), sql: v["sql"].as_str().unwrap_or("").into() }),
             "kernels" => items.push(Item::Kernels { seed: v["seed"].as_u64().unwrap_or(1) }),
             _ => items.push(Item::Parse(c02::Item { cls: "replay", dialect: v["dialect"].as_str().unwrap_or("ansi").into(), sql: v["sql"].as_str().unwrap_or("").into() })),
         }
@@ -598,16 +1156,16 @@ pub fn main(args: &Args) {
         for (i, (_, s)) in snippets.iter().enumerate() {
             if thorough {
                 for r in RULESETS {
-                    items.push(Item::Fix { cls: "rule-snippet", dialect: "ansi".into(), rules: r.to_string(), sql: s.clone() });
+                    items.push(Item::Fix { cls: "rule-snippet", dialect: "ansi".into(), rules: r.to_string(), tpl: None, sql: s.clone() });
                 }
             } else {
                 let r = if i % 2 == 0 { "all" } else { RULESETS[rng.below(RULESETS.len())] };
-                items.push(Item::Fix { cls: "rule-snippet", dialect: "ansi".into(), rules: r.to_string(), sql: s.clone() });
+                items.push(Item::Fix { cls: "rule-snippet", dialect: "ansi".into(), rules: r.to_string(), tpl: None, sql: s.clone() });
             }
         }
         for s in EXTRA_SQL {
             for r in RULESETS {
-                items.push(Item::Fix { cls: "multi-line-non-ascii", dialect: "ansi".into(), rules: r.to_string(), sql: s.to_string() });
+                items.push(Item::Fix { cls: "multi-line-non-ascii", dialect: "ansi".into(), rules: r.to_string(), tpl: None, sql: s.to_string() });
             }
         }
         let files = corpus();
@@ -615,7 +1173,69 @@ pub fn main(args: &Args) {
         for _ in 0..(if thorough { 1500 } else { 150 }) {
             let f = small[rng.below(small.len())];
             let r = if rng.chance(1, 2) { "all" } else { RULESETS[rng.below(RULESETS.len())] };
-            items.push(Item::Fix { cls: "corpus", dialect: f.dialect.clone(), rules: r.to_string(), sql: f.text.clone() });
+            items.push(Item::Fix { cls: "corpus", dialect: f.dialect.clone(), rules: r.to_string(), tpl: None, sql: f.text.clone() });
+        }
+        // ---- bracket structure: generated bodies in statement skeletons and in the bracket pairs of corpus files
+        let mut lexcx = c02::Ctx::new();
+        let lex_raws = |lexcx: &mut c02::Ctx, dialect: &str, text: &str| -> Option<Vec<String>> {
+            let tables = Tables::default();
+            c02::lex(lexcx.cfg(dialect), &tables, text).ok().map(|(t, _)| t.iter().map(|t| t.raw().to_string()).collect())
+        };
+        for _ in 0..(if thorough { 20000 } else { 2000 }) {
+            items.push(Item::Parse(bracket_skeleton_item(&mut rng)));
+        }
+        let with_brackets: Vec<&CorpusFile> = small.iter().copied().filter(|f| f.text.contains('(')).collect();
+        for _ in 0..(if thorough { 12000 } else { 1200 }) {
+            let f = with_brackets[rng.below(with_brackets.len())];
+            if let Some(raws) = lex_raws(&mut lexcx, &f.dialect, &f.text) {
+                if let Some(it) = bracket_corpus_item(&mut rng, &f.dialect, &raws) {
+                    items.push(Item::Parse(it));
+                }
+            }
+        }
+        // ---- a templater whose output differs from its input (placeholder), and the raw templater
+        //      through the same entry point (Linter::parse_string)
+        for s in EXTRA_SQL {
+            items.push(Item::TParse { cls: "parse-string-raw", dialect: "ansi".into(), tpl: None, sql: s.to_string() });
+        }
+        for _ in 0..(if thorough { 3000 } else { 220 }) {
+            let skel = rng_pick_skel(&mut rng);
+            let (tpl, sql) = skeleton_tpl(&mut rng, skel);
+            let dialect = if rng.chance(1, 2) { "ansi" } else { DIALECTS[rng.below(DIALECTS.len())] };
+            items.push(Item::TParse { cls: "placeholder-skeleton", dialect: dialect.into(), tpl: Some(tpl), sql });
+        }
+        let snippet_texts: Vec<&String> = snippets.iter().map(|(_, s)| s).filter(|s| s.len() <= 1200).collect();
+        for k in 0..(if thorough { 8000 } else { 600 }) {
+            let (dialect, text): (&str, &str) = if k % 3 == 0 {
+                ("ansi", snippet_texts[rng.below(snippet_texts.len())])
+            } else {
+                let f = small[rng.below(small.len())];
+                (&f.dialect, &f.text)
+            };
+            let Some(raws) = lex_raws(&mut lexcx, dialect, text) else { continue };
+            if let Some((tpl, sql)) = templatize(&mut rng, &raws) {
+                items.push(Item::TParse { cls: "placeholder-corpus", dialect: dialect.into(), tpl: Some(tpl), sql });
+            }
+        }
+        // post-fix clause under templating
+        for k in 0..(if thorough { 2500 } else { 200 }) {
+            let r = if rng.chance(1, 2) { "all" } else { RULESETS[rng.below(RULESETS.len())] };
+            if k % 4 == 0 {
+                let skel = rng_pick_skel(&mut rng);
+            let (tpl, sql) = skeleton_tpl(&mut rng, skel);
+                items.push(Item::Fix { cls: "placeholder-skeleton", dialect: "ansi".into(), rules: r.to_string(), tpl: Some(tpl), sql });
+                continue;
+            }
+            let (dialect, text): (&str, &str) = if k % 2 == 0 {
+                ("ansi", snippet_texts[rng.below(snippet_texts.len())])
+            } else {
+                let f = small[rng.below(small.len())];
+                (&f.dialect, &f.text)
+            };
+            let Some(raws) = lex_raws(&mut lexcx, dialect, text) else { continue };
+            if let Some((tpl, sql)) = templatize(&mut rng, &raws) {
+                items.push(Item::Fix { cls: "placeholder-corpus", dialect: dialect.into(), rules: r.to_string(), tpl: Some(tpl), sql });
+            }
         }
         for k in 0..(if thorough { 3000 } else { 300 }) {
             items.push(Item::Kernels { seed: args.seed.wrapping_mul(1000003).wrapping_add(k) });
